@@ -311,7 +311,7 @@ def tie_cha(ctx):
         m = numqi.entangle.CHABoundaryBagging((dA, dB))
         try:
             with contextlib.redirect_stdout(io.StringIO()), contextlib.redirect_stderr(io.StringIO()):
-                beta, (ka, kb, lam, hist) = m.solve(dm, maxiter=8, seed=int(rng.integers(1 << 30)), return_info=True)
+                beta, (ka, kb, lam, hist) = m.solve(dm, maxiter=(0 if trial % 2 else 8), seed=int(rng.integers(1 << 30)), return_info=True)
         except Exception as e:
             ctx.count('cha-solver-raised-' + type(e).__name__)
             continue
@@ -380,6 +380,45 @@ def tie_dicke(ctx):
                         out.append(';'.join(f'{i}:{j}:{_rat_sq(m[i, j], n * n)}' for i in range(n + 1) for j in range(n + 1) if m[i, j] != 0))
             return '|'.join(out)
         ops.append(f'C06 bij {n} 2'); impl.append(guarded(ft))
+    # for dimB = 3 the bosonic block's coefficient tensor comes from the numerically derived irrep basis (get_sud_symmetric_irrep_basis):
+    # it must be the same table expressed in that basis, c' = (V (x) conj V) c with the unitary V = <library basis | Dicke basis> — V
+    # unitary to 1e-12, and the tensor transformed back to the Dicke basis is compared with the model's table entry by entry
+    G_ = numqi.group.symext
+    #   ((4,3) and (3,4): the symmetric irrep shares its dimension with a mixed-symmetry one — block 0 must still be the symmetric one)
+    for n, d in ([(2, 3), (3, 3), (4, 3), (3, 4)] if ctx.quick() else [(2, 3), (3, 3), (4, 3), (2, 4), (3, 4), (5, 3)]):
+        def fv(n=n, d=d):
+            fb, fd = getattr(G_, 'get_sud_symmetric_irrep_basis', None), getattr(D, 'get_dicke_basis', None)
+            if fb is None or fd is None:
+                return None
+            cf, ml = G_.get_symmetric_extension_irrep_coeff(d, n)
+            L = D.get_dicke_number(n, d)
+            bs = np.asarray(fb(d, n)[0][0]).reshape(L, -1)
+            Dk = np.asarray(fd(n, d)).reshape(L, -1)
+            V = bs @ Dk.conj().T
+            if np.abs(V @ V.conj().T - np.eye(L)).max() > 1e-12 or cf[0].shape != (L, L, d, d) or ml[0] != 1:
+                return 'error:the bosonic irrep basis is not a unitary image of the Dicke basis'
+            c = np.einsum('ia,jb,ijrs->abrs', V.conj(), V, np.asarray(cf[0]), optimize=True)
+            if np.abs(c.imag).max() > 1e-12 or c.real.min() < -1e-12:
+                return 'error:not real non-negative in the Dicke basis'
+            c = np.where(np.abs(c.real) < 1e-12, 0.0, c.real)
+            out = []
+            for r in range(d):
+                for s_ in range(d):
+                    m = c[:, :, r, s_]
+                    if r == s_:
+                        if np.count_nonzero(m - np.diag(np.diag(m))):
+                            return 'error:off-diagonal entry in a diagonal table'
+                        out.append(';'.join(f'{i}:{i}:{_rat_sq(m[i, i], n * n)}' for i in range(L)))
+                    else:
+                        out.append(';'.join(f'{i}:{j}:{_rat_sq(m[i, j], n * n)}' for i in range(L) for j in range(L) if m[i, j] != 0))
+            return '|'.join(out)
+        try:
+            r_ = guarded(fv)
+        except AttributeError:
+            r_ = None
+        if r_ is None:
+            ctx.count('bij-irrep-basis-skipped'); continue
+        ops.append(f'C06 bij {n} {d}'); impl.append(r_)
     for n, d in [(0, 2), (2, 1)]:
         ops.append(f'C06 bij {n} {d}'); impl.append(guarded(lambda: str(D.get_partial_trace_ABk_to_AB_index(n, d))))
     gl = lambda a: ';'.join(f'{int(round(z.real))},{int(round(z.imag))}' for z in np.asarray(a, dtype=np.complex128).reshape(-1))
@@ -413,7 +452,10 @@ def tie_dicke(ctx):
                 model()
             tl = '|'.join(';'.join(f'{int(i)}:{int(j)}:{int(w.real)},{int(w.imag)}' for i, j, w in zip(x[0].tolist(), x[1].tolist(), ww)) or '-' for x, ww in zip(model.Bij, ints))
             return tl, gl(model.dm_torch.numpy())
-        r = guarded(g)
+        try:
+            r = guarded(g)
+        except AttributeError as e:
+            ctx.count('purebred-skipped'); ctx.note(f'PureBosonicExt internals (Bij / manifold / dm_torch) not as expected ({e}): purebred tie skipped, asm ties decide'); continue
         if isinstance(r, str):
             ops.append(f'C06 purebred {dimA} {dimB} {L} - {gl(v)}'); impl.append(r)
         else:
@@ -429,8 +471,18 @@ def tie_dicke(ctx):
                 return f'{fr.numerator}/{fr.denominator},0/1'
             ops.append(op); impl.append(guarded(h))
     # bisection bookkeeping of get_boundary: step function hf(x) = [x >= t], dyadic data (all midpoints exact)
-    from numqi.entangle._misc import _ree_bisection_solve
-    for _ in range(12 if ctx.quick() else 60):
+    # (private helper: looked up by name; when it is gone or its call form changed the direct tie is skipped with a note — the public path
+    #  `get_boundary(return_info=True)` is checked against the same model op by probe_get_boundary_info)
+    _ree_bisection_solve = getattr(__import__('numqi.entangle._misc', fromlist=['x']), '_ree_bisection_solve', None)
+    bis_ok = _ree_bisection_solve is not None
+    if bis_ok:
+        try:
+            _ree_bisection_solve(lambda x: 1.0 if x >= 0.3 else 0.0, 0.0, 1.0, 0.25, 0.5, False)
+        except TypeError:
+            bis_ok = False
+    if not bis_ok:
+        ctx.count('bisect-direct-tie-skipped'); ctx.note('numqi.entangle._misc._ree_bisection_solve not callable as (hf0, x0, x1, xtol, threshold, use_tqdm): direct bisection tie skipped')
+    for _ in range((12 if ctx.quick() else 60) if bis_ok else 0):
         x0 = float(rng.integers(0, 4)) / 4
         x1 = x0 + float(rng.integers(1, 9)) / 4
         j = int(rng.integers(1, 12)); cden = int(rng.choice([1, 3, 5, 7]))
@@ -448,20 +500,55 @@ def tie_dicke(ctx):
     common.compare(ctx, ops, impl, model)
 
 
-def _recording_parameter(param, log):
-    """make a cvxpy Parameter record (copies of) every value assigned to it; nothing else about it changes"""
-    import cvxpy
-    base = cvxpy.Parameter
+class _solve_recorder:
+    """replace `cvxpy.Problem.solve` (public cvxpy interface) by a recorder while the block runs: no programme is solved; every call stores
+    the problem and the value of its parameter of shape `shape`, gives every variable the value zero and reports the value 1 (feasible).
+    Nothing of numqi is replaced, so the ties built on it do not depend on private names or call forms of the library."""
+    def __init__(self, shape):
+        self.shape = tuple(shape)
+        self.log, self.problems = [], []
 
-    class Rec(base):
-        @property
-        def value(self):
-            return base.value.fget(self)
+    def __enter__(self):
+        import cvxpy
+        self.orig = cvxpy.Problem.solve
+        rec = self
 
-        @value.setter
-        def value(self, v):
-            log.append(None if v is None else np.array(v, copy=True)); base.value.fset(self, v)
-    param.__class__ = Rec
+        def solve(self_, *a, **k):
+            rec.problems.append(self_)
+            vals = [np.array(p.value, copy=True) for p in self_.parameters() if tuple(p.shape) == rec.shape and p.value is not None]
+            rec.log.append(vals[0] if len(vals) == 1 else None)
+            for v in self_.variables():
+                try:
+                    v.value = np.zeros(v.shape)
+                except Exception:
+                    pass
+            try:
+                self_._value = 1.0
+            except Exception:
+                pass
+            return 1.0
+        cvxpy.Problem.solve = solve
+        return self
+
+    def __exit__(self, *a):
+        import cvxpy
+        cvxpy.Problem.solve = self.orig
+        return False
+
+    def affine_side(self):
+        """(expression, scalar variable, parameter): the side of an equality constraint of the last recorded problem that contains the
+        parameter of shape `shape` and exactly one scalar variable"""
+        for prob in reversed(self.problems):
+            for c in prob.constraints:
+                for a in getattr(c, 'args', []):
+                    try:
+                        ps = [p for p in a.parameters() if tuple(p.shape) == self.shape]
+                        vs = a.variables()
+                    except Exception:
+                        continue
+                    if len(ps) == 1 and len(vs) == 1 and tuple(vs[0].shape) == ():
+                        return a, vs[0], ps[0]
+        return None
 
 
 def _herm_int_dominant(rng, n, total=1 << 16):
@@ -507,36 +594,33 @@ def tie_symext(ctx):
         a = (n0, n1) if n2 is None else (n0, n1, n2, n3)
         ops.append(f'C06 idx0213 {n0} {n1} {n0 if n2 is None else n2} {n1 if n3 is None else n3}')
         impl.append(guarded(lambda: ','.join(str(int(x)) for x in S.get_cvxpy_transpose0213_indexing(*a))))
-    # (b) the realignment of the input state(s) of is_ABk_symmetric_ext: single 2-d, 3-d array, list; exact (entries k/2^16)
+    # (b) the realignment of the input state(s) of is_ABk_symmetric_ext: single 2-d, 3-d array, list; exact (entries k/2^16).
+    #     Only public interfaces are touched: `cvxpy.Problem.solve` is replaced by a recorder (no SDP is solved), which stores the value
+    #     of the problem's (dA^2, dB^2) parameter at every solve — the library's private set-up routine runs as it is.
     T = 1 << 16
     for dA, dB in (DIMS if ctx.quick() else DIMS + [(3, 2), (4, 2)]):
         N = dA * dB
         ms = [_herm_int_dominant(rng, N, T) for _ in range(3)]
         for form, arg in (('single', ms[0] / T), ('array', np.stack(ms) / T), ('list', [m / T for m in ms[:2]])):
-            log = []
-
-            def stub(dimA, dimB, kext, use_boson, use_ppt, cvx_rho=None, log=log):
-                _recording_parameter(cvx_rho, log)
-                return [], []
-
-            def f():
-                with patched((S, '_ABk_symmetric_extension_setup', stub)):
-                    r = S.is_ABk_symmetric_ext(arg, (dA, dB), 2)
-                return r
-            r = guarded(f)
+            with _solve_recorder((dA * dA, dB * dB)) as rec:
+                r = guarded(lambda: S.is_ABk_symmetric_ext(arg, (dA, dB), 2))
+            log = [x for x in rec.log if x is not None]
             want = {'single': 1, 'array': 3, 'list': 2}[form]
             shape_ok = (not isinstance(r, str)) and ((np.ndim(r) == 0) if form == 'single' else (np.shape(r) == (want,)))
             for i in range(want):
                 ops.append(f'C06 sxrealign {dA} {dB} {gints(ms[i])}')
                 if isinstance(r, str):
                     impl.append(r)
-                elif len(log) != want or not shape_ok:
-                    impl.append(f'error:shape({len(log)} values recorded, result shape {np.shape(r)})')
+                elif not shape_ok:
+                    impl.append(f'error:result shape {np.shape(r)}')
                 else:
-                    v = log[i] * T
-                    impl.append(gints(v) if np.array_equal(v, np.round(v.real) + 1j * np.round(v.imag)) else 'error:not-integral')
+                    # the state must have been handed to the solver (realigned) at some solve; a repeated solve is harmless
+                    cand = [v * T for v in log]
+                    cand = [v for v in cand if np.array_equal(v, np.round(v.real) + 1j * np.round(v.imag)) and sorted(np.abs(v).reshape(-1).tolist()) == sorted(np.abs(ms[i]).reshape(-1).tolist())]
+                    impl.append(gints(cand[0]) if cand else f'error:state {i} not found among the {len(log)} parameter values handed to the solver')
     # (c) get_ABk_symmetric_extension_boundary: the direction handed to the SDP is the realigned normalised traceless part (permutation
-    #     from the model, float arithmetic as in the source), and the affine expression `eye/(dA dB) + beta*R` at dyadic beta
+    #     from the model, float arithmetic as in the source), and the affine expression `eye/(dA dB) + beta*R` at dyadic beta (the side of
+    #     the SDP's equality constraint that contains the parameter and one scalar variable)
     close_items = []
     for dA, dB in (DIMS if ctx.quick() else DIMS + [(3, 2), (4, 2)]):
         N = dA * dB
@@ -546,44 +630,43 @@ def tie_symext(ctx):
             hs.append(h / np.trace(h).real if abs(np.trace(h).real) > 0.3 else h + np.eye(N) * (1 - np.trace(h).real) / N)
         hs = [h - np.eye(N) * (np.trace(h).real - 1) / N if abs(np.trace(h).real - 1) > 1e-12 else h for h in hs]
         for form, arg in (('single', hs[0]), ('array', np.stack(hs)), ('list', hs)):
-            log, hold = [], {}
-
-            def stub2(dimA, dimB, kext, use_boson, use_ppt, cvx_sigma=None, log=log, hold=hold):
-                hold['sigma'] = cvx_sigma
-                hold['rho'] = cvx_sigma.parameters()[0]; hold['beta'] = cvx_sigma.variables()[0]
-                _recording_parameter(hold['rho'], log)
-                return [], [hold['beta'] <= 1]
-
-            def f():
-                with patched((S, '_ABk_symmetric_extension_setup', stub2)):
-                    return S.get_ABk_symmetric_extension_boundary(arg, (dA, dB), 2)
-            r = guarded(f)
-            log = list(log)      # later assignments (evaluation of the affine expression below) are not part of the record
+            with _solve_recorder((dA * dA, dB * dB)) as rec:
+                r = guarded(lambda: S.get_ABk_symmetric_extension_boundary(arg, (dA, dB), 2))
+            log = [x for x in rec.log if x is not None]
+            sig = rec.affine_side()
             items = [hs[0]] if form == 'single' else hs
+            nrm = numqi.gellmann.dm_to_gellmann_norm(np.asarray(arg))
             for i, h in enumerate(items):
                 posmat = np.arange(N * N).reshape(N, N)
                 op = f'C06 sxrealign {dA} {dB} {gints(posmat)}'
                 ops.append(op)
                 if isinstance(r, str):
                     impl.append(r); continue
-                if len(log) != len(items):
-                    impl.append(f'error:{len(log)} values recorded'); continue
-                nrm = numqi.gellmann.dm_to_gellmann_norm(np.asarray(arg))
                 t = ((np.asarray(arg).reshape(-1, N, N) - np.eye(N) / N) / np.reshape(nrm, (-1, 1, 1)))[i]
                 where = {}
                 for pos, z in enumerate(t.reshape(-1)):
                     where.setdefault((fbits(z.real), fbits(z.imag)), pos)
-                got = [where.get((fbits(z.real), fbits(z.imag)), -1) for z in log[i].reshape(-1)]
+                got = None
+                for v in log:
+                    g_ = [where.get((fbits(z.real), fbits(z.imag)), -1) for z in v.reshape(-1)]
+                    if -1 not in g_:
+                        got = g_; R = v; break
+                if got is None:
+                    impl.append(f'error:direction {i} not found among the {len(log)} parameter values handed to the solver'); continue
                 impl.append(';'.join(f'{g},0' for g in got))
                 # the affine expression at beta = ±2^k
+                if sig is None:
+                    ctx.count('extray-expression-not-found'); continue
                 for beta in ((0.5, -2.0) if ctx.quick() else (0.5, -2.0, 1.0, 0.03125)):
-                    hold['beta'].value = beta; hold['rho'].value = log[i]
-                    val = np.asarray(hold['sigma'].value, dtype=np.complex128)
-                    line = f'C06 extray {dA} {dB} {fbits(beta)} ' + ';'.join(f'{fbits(z.real)},{fbits(z.imag)}' for z in log[i].reshape(-1))
+                    sig[1].value = beta; sig[2].value = R
+                    val = np.asarray(sig[0].value, dtype=np.complex128)
+                    line = f'C06 extray {dA} {dB} {fbits(beta)} ' + ';'.join(f'{fbits(z.real)},{fbits(z.imag)}' for z in R.reshape(-1))
                     close_items.append((line, val.reshape(-1), N))
             if not isinstance(r, str):
                 ok = (np.ndim(r) == 0) if form == 'single' else (np.shape(r) == (len(items),))
-                ops.append(f'C06 idx0213 1 1 1 1'); impl.append('0' if ok and np.allclose(r, 1.0, atol=1e-6) else f'error:stub-result {r!r}')
+                ops.append(f'C06 idx0213 1 1 1 1'); impl.append('0' if ok else f'error:result shape {np.shape(r)}')
+    if not close_items:
+        ctx.count('extray'); ctx.disagree('C06 extray (all)', 'the affine expression of the boundary SDP', 'no equality constraint with the (dA^2,dB^2) parameter and one scalar variable was found')
     model = common.run_model(ops)
     common.compare(ctx, ops, impl, model)
     # extray: exact where 1/(dA dB) is a double (the only rounding is the final one, and float(Fraction) rounds correctly);
@@ -609,12 +692,20 @@ def tie_symext(ctx):
     # (d) _ABk_symmetric_extension_setup: the reduced-state expression and the trace constraint at Gaussian-integer blocks; the
     #     coefficient tensors (numerically derived, C05/C12 territory) enter the model as exact rationals of their doubles, the
     #     model sums exactly, cvxpy in doubles: relative 1e-12
-    cases = [(2, 2, 2, False, False), (2, 2, 3, False, True), (2, 3, 2, False, False), (2, 3, 2, True, False)] + \
-        ([] if ctx.quick() else [(3, 2, 2, False, True), (2, 3, 3, False, False), (3, 3, 2, False, False), (2, 4, 2, True, True)])
+    #     ((2,3,3): multiplicities (1,2,1) — the trace constraint with a multiplicity > 1 is in the quick tier)
+    cases = [(2, 2, 2, False, False), (2, 2, 3, False, True), (2, 3, 2, False, False), (2, 3, 2, True, False), (2, 3, 3, False, False)] + \
+        ([] if ctx.quick() else [(3, 2, 2, False, True), (3, 3, 2, False, False), (2, 4, 2, True, True), (2, 3, 3, False, True)])
     lines, vals = [], []
+    setup = getattr(S, '_ABk_symmetric_extension_setup', None)
     for dA, dB, k, boson, ppt in cases:
+        if setup is None:
+            ctx.count('irreprdm-skipped'); continue
+
         def g():
-            cvxP, cons, rdm = S._ABk_symmetric_extension_setup(dA, dB, k, boson, ppt)
+            try:
+                cvxP, cons, rdm = setup(dA, dB, k, use_boson=boson, use_ppt=ppt)
+            except TypeError:
+                return None
             cf, ml = numqi.group.symext.get_symmetric_extension_irrep_coeff(dB, k)
             if boson:
                 cf, ml = cf[:1], ml[:1]
@@ -632,9 +723,13 @@ def tie_symext(ctx):
                 blocks.append(f'{x}:{gints(a)}:' + ';'.join(f'{fbits(z.real)},{fbits(z.imag)}' for z in cc) + f':{fbits(float(m))}')
             return '|'.join(blocks), np.asarray(rdm.value, dtype=np.complex128).reshape(-1), complex(cons[-1].args[0].value)
         r = guarded(g)
+        if r is None:
+            ctx.count('irreprdm-skipped'); continue
         if isinstance(r, str):
             ctx.count('irreprdm'); ctx.disagree(f'C06 irreprdm {dA} {dB} (kext={k}, boson={boson}, ppt={ppt})', 'a value', r); continue
         lines.append(f'C06 irreprdm {dA} {dB} {r[0]}'); vals.append(r[1:])
+    if setup is None or ctx.hist.get('irreprdm-skipped'):
+        ctx.note('numqi.entangle.symext._ABk_symmetric_extension_setup(dimA, dimB, kext, use_boson=, use_ppt=) not available in that form: irreprdm tie skipped (the SDP probes decide)')
     out = common.run_model(lines) if lines else []
     for line, (rv, tr), o in zip(lines, vals, out):
         ctx.count('irreprdm')
@@ -939,7 +1034,10 @@ def probe_inner_models(ctx):
         else:
             ctx.probe_ok((tag, dA, dB))
     # pure bosonic extension at arbitrary parameters
-    cfg = [(2, 2, 1), (2, 2, 2), (2, 2, 3), (2, 3, 2), (3, 3, 2)] if ctx.quick() else [(2, 2, 1), (2, 2, 2), (2, 2, 3), (2, 3, 1), (2, 3, 2), (2, 3, 3), (3, 3, 1), (3, 3, 2), (2, 4, 2), (2, 2, 4)]
+    # (2,3,4) and (2,4,3): sizes where another irrep of S_k x SU(dB) has the dimension of the symmetric one (15 = 15, 20 = 20) — the
+    # bosonic block of the outer test must still be the symmetric irrep
+    cfg = [(2, 2, 1), (2, 2, 2), (2, 2, 3), (2, 3, 2), (3, 3, 2), (2, 3, 4), (2, 4, 3)] if ctx.quick() else \
+        [(2, 2, 1), (2, 2, 2), (2, 2, 3), (2, 3, 1), (2, 3, 2), (2, 3, 3), (3, 3, 1), (3, 3, 2), (2, 4, 2), (2, 2, 4), (2, 3, 4), (2, 4, 3), (3, 3, 4)]
     for dA, dB, k in cfg:
         for rep in range(2 if ctx.quick() else 4):
             rho, theta = _pureb_state(dA, dB, k, rng)
@@ -951,20 +1049,21 @@ def probe_inner_models(ctx):
         for rep in range(2 if ctx.quick() else 4):
             rho, theta = _cha_autodiff_state(dA, dB, rng)
             replay = dict(op='AutodiffCHAREE', dim=[dA, dB], theta=theta.tolist())
-            outer_tests(rho, dA, dB, 0 if ctx.quick() else 2, True, 'AutodiffCHAREE', replay, boson_only=True)
+            outer_tests(rho, dA, dB, (4 if (dA, dB) == (2, 3) else 0) if ctx.quick() else (4 if (dA, dB) == (2, 3) else 2), True, 'AutodiffCHAREE', replay, boson_only=True)
     # LP model: the extracted mixture
     n_ok = 0
     for trial in range(12 if ctx.quick() else 40):
-        if n_ok >= (3 if ctx.quick() else 10):
+        if n_ok >= (4 if ctx.quick() else 12):
             break
         dA, dB = DIMS[trial % 2] if ctx.quick() else DIMS[trial % 3]
         N = dA * dB
         dm = rand_dm(rng, N)
         seed = int(rng.integers(1 << 30))
         m = numqi.entangle.CHABoundaryBagging((dA, dB))
+        mit = (0, 6, 1)[trial % 3]        # the certificate must be consistent after the initial LP alone (maxiter=0) as well as after bagging steps
         try:
             with contextlib.redirect_stdout(io.StringIO()), contextlib.redirect_stderr(io.StringIO()):
-                beta, (ka, kb, lam, hist) = m.solve(dm, maxiter=6, seed=seed, return_info=True)
+                beta, (ka, kb, lam, hist) = m.solve(dm, maxiter=mit, seed=seed, return_info=True)
         except Exception as e:
             ctx.count('cha-solver-raised-' + type(e).__name__); continue
         n_ok += 1
@@ -977,12 +1076,12 @@ def probe_inner_models(ctx):
                 or np.abs(np.linalg.norm(kb, axis=1) - 1).max() > 1e-9:
             ctx.fail('cha-certificate', f'CHABoundaryBagging.solve(return_info=True) on a complex {dA}x{dB} target: the returned product states and weights do not '
                      f'reconstruct the state at beta={beta!r} (max deviation {dev:.3g}; deviation from its complex conjugate {np.abs(cert - point.conj()).max():.3g}; '
-                     f'min lambda {lam.min():.3g}, sum {lam.sum()!r})', dict(op='CHABoundaryBagging.solve', dim=[dA, dB], dm=_mat_replay(dm), seed=seed, maxiter=6))
+                     f'min lambda {lam.min():.3g}, sum {lam.sum()!r}; maxiter={mit})', dict(op='CHABoundaryBagging.solve', dim=[dA, dB], dm=_mat_replay(dm), seed=seed, maxiter=mit))
         else:
             ctx.probe_ok(('cha-cert', trial))
         lam = np.maximum(lam, 0); lam = lam / lam.sum()
         mix = np.einsum(lam, [0], ka, [0, 1], ka.conj(), [0, 3], kb, [0, 2], kb.conj(), [0, 4], [1, 2, 3, 4]).reshape(N, N)
-        replay = dict(op='CHABoundaryBagging.solve', dim=[dA, dB], dm=_mat_replay(dm), seed=seed, maxiter=6)
+        replay = dict(op='CHABoundaryBagging.solve', dim=[dA, dB], dm=_mat_replay(dm), seed=seed, maxiter=mit)
         outer_tests(mix, dA, dB, 0 if ctx.quick() else 2, True, 'CHABoundaryBagging', replay, boson_only=True)
         bppt = numqi.entangle.get_ppt_boundary(dm, (dA, dB))[1]
         bdm = numqi.entangle.get_density_matrix_boundary(dm)[1]
@@ -1405,18 +1504,25 @@ def probe_sdp_shapes(ctx):
         rep2 = dict(op='sdp-decision', dim=[dA, dB], kext=k, use_ppt=ppt, use_boson=boson, states=[_mat_replay(d) for d in pts], expected=want,
                     how='points at Gell-Mann distance beta_kext -/+ 0.02 on the rays of the states above')
         try:
-            with quiet(), _solver_status() as st:
-                r1 = [E.is_ABk_symmetric_ext(x, (dA, dB), k, **kw) for x in pts]
+            r1, clean = [], []
+            for x in pts:
+                with quiet(), _solver_status() as st1:
+                    r1.append(E.is_ABk_symmetric_ext(x, (dA, dB), k, **kw))
+                # a decision is held against the boundary only when every solve of the single-item call on that state reported a clean
+                # status (is_ABk_symmetric_ext takes `optimal_inaccurate` as "extension exists": an observation, design_notes/C06.md);
+                # statuses are attributed per call, not by position in a global log, so extra / fewer solves change nothing
+                clean.append(len(st1.log) >= 1 and all(z in ('optimal', 'infeasible') for z in st1.log))
+            with quiet():
                 r3 = E.is_ABk_symmetric_ext(np.stack(pts), (dA, dB), k, **kw)
                 rl = E.is_ABk_symmetric_ext(list(pts), (dA, dB), k, **kw)
                 ri = E.is_ABk_symmetric_ext(np.stack(pts), (dA, dB), k, return_info=True, **kw)
                 rs = E.is_ABk_symmetric_ext(pts[0], (dA, dB), k, return_info=True, **kw)
-            # a decision is held against the boundary only when the solver reported a clean status for that state in every call
-            # (is_ABk_symmetric_ext takes `optimal_inaccurate` as "extension exists": an observation, see design_notes/C06.md)
-            clean = [all(st.log[j * len(pts) + i] in ('optimal', 'infeasible') for j in range(4)) for i in range(len(pts))] \
-                if len(st.log) == 4 * len(pts) + 1 else [False] * len(pts)
             if not all(clean):
                 ctx.count('sdp-decision-unclean-status', len(pts) - sum(clean))
+            if sum(clean) < (len(pts) + 1) // 2:
+                ctx.fail('sdp-decision-unverifiable', f'({dA},{dB}) kext={k} use_ppt={ppt} use_boson={boson}: the solver reported a clean status for only {sum(clean)} of '
+                         f'{len(pts)} states at distance 0.02 from the boundary (on the unchanged tree all are clean): the decisions cannot be checked', rep2)
+                continue
         except Exception as e:
             ctx.fail('sdp-shapes-raised', f'is_ABk_symmetric_ext raised {type(e).__name__}: {e} on a documented input shape', rep2); continue
         ctx.count('sdp-decision', 4 * len(pts) + 1)
@@ -1425,12 +1531,16 @@ def probe_sdp_shapes(ctx):
             bad.append('single item: not a bool')
         if np.shape(r3) != (len(pts),) or np.shape(rl) != (len(pts),) or np.asarray(r3).dtype != bool:
             bad.append(f'batched result: shape {np.shape(r3)} / {np.shape(rl)}, dtype {np.asarray(r3).dtype}')
-        elif any(c and not (bool(a) == bool(b) == bool(c_) == w) for c, a, b, c_, w in zip(clean, r1, r3, rl, want)):
+        elif any(not (bool(a) == bool(b) == bool(c_)) or (c and bool(a) != w) for c, a, b, c_, w in zip(clean, r1, r3, rl, want)):
             bad.append(f'decisions single {[bool(x) for x in r1]}, array {[bool(x) for x in r3]}, list {[bool(x) for x in rl]}; the boundary says {want}')
         if not (isinstance(ri, list) and len(ri) == len(pts) and all(isinstance(x, tuple) and len(x) == 2 for x in ri) and isinstance(rs, tuple) and len(rs) == 2):
             bad.append('return_info=True: not one (decision, blocks) pair per item')
         elif not bad:
-            cvxP, cons, rdm = S._ABk_symmetric_extension_setup(dA, dB, k, boson, ppt)
+            try:
+                cvxP, cons, rdm = getattr(S, '_ABk_symmetric_extension_setup')(dA, dB, k, use_boson=boson, use_ppt=ppt)
+            except (AttributeError, TypeError):
+                cvxP = None
+                ctx.count('sdp-certificate-check-skipped'); ctx.note('private _ABk_symmetric_extension_setup not available in the expected form: certificate check of return_info skipped')
             for i, ((dec, blocks), x) in enumerate(zip(list(ri) + [rs], pts + [pts[0]])):
                 if not (clean + [clean[0]])[i]:
                     continue
@@ -1439,6 +1549,8 @@ def probe_sdp_shapes(ctx):
                 if not dec:
                     if blocks is not None:
                         bad.append(f'item {i}: blocks returned with a negative decision')
+                    continue
+                if cvxP is None:
                     continue
                 if blocks is None or len(blocks) != len(cvxP) or any(np.shape(bk) != P.shape for bk, P in zip(blocks, cvxP)):
                     bad.append(f'item {i}: blocks of the wrong shape'); continue
@@ -1505,7 +1617,9 @@ def probe_cha_bookkeeping(ctx):
                       indexR=None if indexR is None else indexR.tolist(), seed=seed)
         a0, b0, p0 = ketA.copy(), ketB.copy(), prob.copy()
         try:
-            mask, newA, newB = C._cha_reset_state(ketA, ketB, prob, thr, bound, np.random.default_rng(seed), *(() if indexR is None else (indexR,)))
+            mask, newA, newB = C._cha_reset_state(ketA, ketB, prob, thr, bound, np.random.default_rng(seed), **({} if indexR is None else dict(indexR=indexR)))
+        except (TypeError, AttributeError) as e:
+            ctx.count('cha-reset-skipped'); ctx.note(f'private _cha_reset_state not callable in the expected form ({e}): bookkeeping probe of the helper skipped'); continue
         except Exception as e:
             ctx.fail('cha-reset', f'_cha_reset_state raised {type(e).__name__}: {e}', replay); continue
         low = p0 < thr
@@ -1571,6 +1685,8 @@ def probe_cha_bookkeeping(ctx):
             ctx.fail('cha-solve-bookkeeping', f'({dA},{dB}) num_state={num_state} num_init_retry={retry}: ' + '; '.join(bad[:2]), replay)
         else:
             ctx.probe_ok(('cha-solve-bookkeeping', dA, dB, retry))
+    if done == 0:
+        ctx.fail('cha-solve-bookkeeping-never-ran', 'CHABoundaryBagging.solve(return_info=True, num_state=...) raised in all 16 trials', dict(op='CHABoundaryBagging.solve', trials=16))
 
 
 def probe_get_boundary_info(ctx):
@@ -1647,6 +1763,13 @@ def search(ctx, hints):
     ctx.tier = 'thorough'
     try:
         ctx.np_seed += 101
+        if any(str(d.get('op', '')).split(' ')[1:2] and str(d.get('op', '')).split(' ')[1] in ('extray', 'sxrealign', 'irreprdm', 'idx0213') for d in hints):
+            # the index layer of the SDP routines disagrees: run the SDP probes on the thorough dimension list ((2,3), (3,3): dA != dB)
+            probe_ordering(ctx)
+            if not ctx.failures:
+                probe_sdp_shapes(ctx)
+            if ctx.failures:
+                return
         probe_batched(ctx)
         if not ctx.failures:
             probe_ray_invariance(ctx)
